@@ -116,16 +116,18 @@ def generate(rng, tier):
     g = r.random()
     if g < 0.6:
         methods = [want]
-    elif g < 0.8:
-        methods = r.sample([0, 1, 2, 3, 0x80, 0xFE], r.choice([1, 2, 3, 4]))
-        if want not in methods and r.random() < 0.7:
-            methods.insert(r.randrange(len(methods) + 1), want)
     elif g < 0.87:
-        methods = [2 - want] if r.random() < 0.5 else [1, 3]
+        methods = r.sample([0, 1, 2, 3, 0x80, 0xFE], r.choice([1, 2, 3, 4]))
+        if want not in methods and r.random() < 0.92:
+            methods.insert(r.randrange(len(methods) + 1), want)
     elif g < 0.9:
+        methods = [2 - want] if r.random() < 0.5 else [1, 3]
+    elif g < 0.92:
         methods = []
     else:
         methods = [r.randrange(256) for _ in range(r.choice([5, 40, 255]))]
+        if r.random() < 0.7:
+            methods[r.randrange(len(methods))] = want
     ver = 5
     if r.random() < 0.06:
         ver = r.choice([4, 0, 6, 0x47, 0x43, 1, 255])
@@ -216,6 +218,10 @@ def generate(rng, tier):
         options["proxyauth"] = f"{USER}:{PASSWORD}"
     if kind == "tcp":
         options["tcp_hosts"] = [".*"] if r.random() < 0.8 else [r".", "nomatch"]
+    else:
+        # which layer follows SOCKS must not depend on how much payload the first read holds (that heuristic is
+        # C19's subject): with rawtcp off everything that is not TLS is HTTP
+        options["rawtcp"] = False
     sc = {"family": f"socks5-{kind}", "eager": r.random() < 0.5, "options": options, "kind": kind,
           "chunks": chunks, "truncate": truncate, "segmentations": segs, "connect": connect,
           "banner": S(r.choice([b"", b"", b"220 origin ready\r\n", b"\x00\x01banner"])) if kind == "tcp" else ""}
@@ -404,16 +410,14 @@ def check_one(sc, d, o, v, probes, tag):
         if not ok:
             bad("reply_mismatch", {"outcome": "incomplete"}, f"client received {rx!r}, reference expects {d.replies!r} and then silence")
         if not o["closed"]:
-            bad("not_closed", {"outcome": "incomplete", "eager_task_factory": bool(sc.get("eager")), "handler_done": o["handler_done"]},
-                "connection still open after the client's FIN")
+            bad("not_closed", {"outcome": "incomplete"}, "connection still open after the client's FIN")
         return
     if d.outcome == "reject":
         if o["attempts"]:
             bad("connect_on_rejected_handshake", {}, f"upstream connect {o['attempts']} although the reference rejects ({d.stage})")
         if not o["closed_before_fin"]:
-            bad("not_closed", {"outcome": "reject", "eager_task_factory": bool(sc.get("eager")), "handler_done": o["handler_done"]},
-                f"proxy did not close the connection after refusing (handler finished: {o['handler_done']}, "
-                f"closed after the client's FIN: {o['closed']})")
+            bad("not_closed", {"outcome": "reject"},
+                f"proxy did not close the connection after refusing (closed after the client's FIN: {o['closed']})")
         if not rx.startswith(d.replies):
             bad("reply_mismatch", {"outcome": "reject"}, f"client received {rx!r}, expected it to start with {d.replies!r}")
             return
@@ -549,7 +553,11 @@ def execute(sc):
         if outcome(results[i]) != outcome(results[0]):
             a, b = results[0], results[i]
             what = [k for k in ("rx", "closed_before_fin", "closed", "attempts", "origin_rx", "origin_eof") if a[k] != b[k]]
-            v.append({"class": "segmentation_dependent", "key": {"differs": what, "outcome": d.outcome, "stage": d.stage},
+            leaked = any(o["handler_done"] and not o["closed"] for o in results)
+            if leaked and set(what) <= {"closed_before_fin", "closed", "origin_eof"} and any(x["class"] == "not_closed" for x in v):
+                break  # already reported as not_closed; the difference is its consequence
+            v.append({"class": "segmentation_dependent",
+                      "key": {"differs": what, "outcome": d.outcome, "stage": d.stage, "handler_ended_without_closing": leaked},
                       "msg": f"same {len(data)} client bytes, segmentation 0 (whole) vs {i} (cuts {sc['segmentations'][i].get('cuts')}): "
                              f"{ {k: (a[k] if not isinstance(a[k], bytes) else a[k][:60]) for k in what} } vs "
                              f"{ {k: (b[k] if not isinstance(b[k], bytes) else b[k][:60]) for k in what} }"})
